@@ -18,7 +18,7 @@ def _rel(d, now):
             return "nan"
         if d == INF:
             return INF
-        return float(d - now)
+        return float(d) - now
     except TypeError:
         return repr(d)
 
@@ -37,6 +37,7 @@ def _num(d):
 def canon(Q, now=None, with_tracker=True):
     if now is None:
         now = Q.current_time
+    now = float(now)
     ids = sorted(ind.id_number for nd in Q.transitive_nodes for ind in nd.all_individuals)
     rank = {i: k for k, i in enumerate(ids)}
     out = []
